@@ -79,6 +79,22 @@ Theorem C18_close_reset_local : forall pf m id op,
 Proof. exact close_reset_local. Qed.
 Print Assumptions C18_close_reset_local.
 
+(** At the receiving endpoints (exit handler, port-forward handler, file
+    upload, shell): if some frame carries FIN, the destination sees exactly
+    the data of the frames up to and including that frame, in order, and only
+    then end-of-stream; without a FIN frame no end-of-stream and no loss. *)
+Theorem C18_endpoint_data_before_eof : forall fs want,
+  data_upto_fin fs = Some want ->
+  endpoint_receive fs = map XGot want ++ [XEof].
+Proof. exact endpoint_data_before_eof. Qed.
+Print Assumptions C18_endpoint_data_before_eof.
+
+Theorem C18_endpoint_no_fin_no_eof : forall fs,
+  data_upto_fin fs = None ->
+  ~ In XEof (endpoint_receive fs) /\ xdata (endpoint_receive fs) = concat (map (fun f => if snd f =? 0 then [] else [snd f]) fs).
+Proof. exact endpoint_no_fin_no_eof. Qed.
+Print Assumptions C18_endpoint_no_fin_no_eof.
+
 (** The facts regenerated from the source on this run are the model's. *)
 Theorem C18_source_facts :
   gen_push_before_fin = code_push_first /\
@@ -92,6 +108,18 @@ Theorem C18_source_facts :
      ARDrain before EOF; the second select has a data arm; PushData is refused
      once the stream is closed *)
   gen_read_first_select_takes_buffered = true /\ gen_read_closed_arm_drains = true /\
-  gen_read_fin_arm_drains = true /\ gen_read_has_data_arm = true /\ gen_push_refused_when_closed = true.
+  gen_read_fin_arm_drains = true /\ gen_read_has_data_arm = true /\ gen_push_refused_when_closed = true /\
+  (* the other receivers of STREAM_DATA deliver the payload whatever the flags
+     say and before they act on FIN_WRITE ([endpoint_on_data]) *)
+  gen_exit_delivers_payload_before_fin = true /\ gen_forward_delivers_payload_before_fin = true /\
+  gen_file_upload_delivers_payload_before_fin = true /\ gen_shell_client_delivers_payload_before_fin = true /\
+  gen_shell_server_delivers_payload_before_fin = true /\
+  gen_exit_data_block_condition_is_nonempty_payload = true /\ gen_forward_data_block_condition_is_nonempty_payload = true /\
+  (* each state transition reads and writes the state inside one lock region
+     (this is what makes AFin / ACloseWrite / AClose atomic steps of the model),
+     and nothing else writes the state *)
+  gen_HandleRemoteFinWrite_transition_atomic = true /\ gen_CloseWrite_transition_atomic = true /\
+  gen_Close_transition_atomic = true /\
+  gen_state_writers_are_the_transition_functions = true.
 Proof. repeat split; reflexivity. Qed.
 Print Assumptions C18_source_facts.
